@@ -179,13 +179,13 @@ struct Reporter {
   void maxi(const std::string& k, u64 v) { if (mx[k] < v) mx[k] = v; }
   void sample(const std::string& s, size_t cap = 4) { if (samples.size() < cap) samples.push_back(s); }
   void outcome(u64 h) { if (outcomes.size() < 4000000) outcomes.insert(h); }
-  // every violation is counted (nviol, viol_<tag>); at most 3000 per (property, tag) are listed per shard so that a
+  // every violation is counted (nviol, viol_<tag>); at most 20000 per (property, tag) are listed per shard so that a
   // flood under one tag can neither hide another tag nor exhaust memory in the driver
   std::map<std::string, u64> listed_per_tag;
   void violation(const std::string& prop, const std::string& key, const std::string& tag, const std::string& detail) {
     ++nviol; ctr["viol_" + prop + "_" + tag]++;
     u64& n = listed_per_tag[prop + "/" + tag];
-    if (n < 3000) { ++n; viols.push_back({prop, key, tag, n <= 8 ? detail : std::string()}); }
+    if (n < 20000) { ++n; viols.push_back({prop, key, tag, n <= 8 ? detail : std::string()}); }
     else ctr["violations_counted_but_not_listed_" + prop + "_" + tag]++;
   }
   // this shard owns index i of the outermost enumeration?
